@@ -3,6 +3,7 @@
 leaks no symbolic value into it; (ii) two-call products: the result of assemble(P2) after
 assemble(P1) equals the result of assemble(P2) alone for all values of both programs' symbols."""
 import functools
+import re
 import types
 
 import z3
@@ -126,6 +127,17 @@ def frame_task(idx, compress):
             res['validated'] += 1
         if len(res['samples']) < 1:
             res['samples'].append(dict(program=src, compress=compress, inputs=inp, outcome=kind))
+        if not ok and 'Leak' not in why and 'symbolic value' not in why:
+            # changed module state is only a violation if it is observable: a correct memo
+            # table would change the state too.  Probe: after this call, do other programs
+            # still assemble to what a fresh import gives?
+            observable = _observable_difference(pl.real, src, inp, compress)
+            if observable is None:
+                res['notes'].append('frame %s: module state changed but no probe program is affected (not a violation)' % name)
+                ok = True
+                before = module_state(pl.asm)
+            else:
+                why = 'module state changed and later results differ: ' + observable
         if ok:
             res.oblig(True)
         else:
@@ -139,6 +151,43 @@ def frame_task(idx, compress):
     res.absorb_stats(x.stats)
     res['functions'] = prof.names()
     return res
+
+
+PROBES = [
+    ('N = 5\naddi x8, x8, N\nj e\ne:', {}),
+    ('addi x8, x8, N\nN:\nj N', {}),
+    ('K = 3\ntop:\naddi x9, x9, K\nbnez x9 top\nli x5, K\ndw top', {}),
+    ('top:\naddi x9, x9, K\nK:\nli x5, K\ncall top', {}),
+    ('addi sp, sp, V\nV = 16', {}),
+    ('V:\naddi sp, sp, V', {}),
+]
+
+
+def _observable_difference(real, src, inp, compress):
+    """assemble probe programs on a fresh import and on an import that first ran (src, inp)"""
+    fresh = asmshim.load_asm_pristine()
+    used = asmshim.load_asm_pristine()
+    try:
+        used.assemble(src, constants=dict(inp), labels={}, compress=compress)
+    except Exception:
+        pass
+    progs = [(p_, c_) for p_, c_ in PROBES] + [(s_, {k: 3 for k in d_}) for _, s_, d_ in PROGRAMS] + \
+            [(s2, {k: 3 for k in d2}) for _, s1, d1, s2, d2 in SEQS] + [(s1, {k: 3 for k in d1}) for _, s1, d1, s2, d2 in SEQS]
+
+    def run(mod, text, consts, c):
+        labels, cc = {}, dict(consts)
+        try:
+            return ('ok', bytes(mod.assemble(text, constants=cc, labels=labels, compress=c)), labels, cc)
+        except Exception as e:
+            return ('exc', type(e).__name__)
+    for text, consts in progs:
+        for c in (False, True):
+            # a brand-new import for every reference result: the reference must not carry
+            # state from the previous probe either
+            a, b = run(asmshim.load_asm_pristine(), text, consts, c), run(used, text, consts, c)
+            if a != b:
+                return 'program %r (compress=%s): fresh import %r, after the call %r' % (text, c, a[:2], b[:2])
+    return None
 
 
 def _diff(a, b, path='state'):
@@ -158,10 +207,14 @@ SEQS = [
     ('fail_then_ok', 'lbl:\nA = K1\naddi x1, x2, K1\nj nowhere', dict(K1=40), 'lbl2:\nli x5, K2\ncall lbl2\nC = K2', dict(K2=34)),
     ('same_names', 'x:\nA = K1\ndw x\ndb A', dict(K1=9), 'db 1\nx:\nA = K2\ndw x\ndb A', dict(K2=9)),
     ('compress_then_plain', 'c:\naddi x8, x8, K1\nbnez x8 c', dict(K1=8), 'c:\naddi x8, x8, K2\nbnez x8 c', dict(K2=8)),
+    ('compress_both_const_then_label', 'N = K1\naddi x8, x8, N\naddi sp, sp, N\nj e\ne:', dict(K1=7), 'addi x8, x8, N\nN:\nli x5, K2\nj N', dict(K2=8)),
+    ('const_then_label', 'BUF = K1\ndb 1\nVAL = K1 + 1', dict(K1=9), 'start:\nnop\nBUF:\nj BUF\ndw BUF\nVAL:\ndw VAL\ndb K2', dict(K2=7)),
+    ('const_then_undefined', 'BUF = K1\naddi x1, x0, K1', dict(K1=14), 'addi x5, x0, BUF\ndb K2', dict(K2=7)),
+    ('compress_both_label_then_const', 'addi x8, x8, N\nN:\nj N', dict(K1=4), 'N = K2\naddi x8, x8, N\naddi sp, sp, N', dict(K2=7)),
 ]
 
 
-def sequence_task(idx, mode):
+def sequence_task(idx, mode, prop='C16'):
     """mode: 'fresh' second call gets fresh dicts; 'shared-none' both calls use the defaults (None);
     'first-dicts' the caller passes dictionaries to the first call only"""
     name, src1, d1, src2, d2 = SEQS[idx]
@@ -169,15 +222,29 @@ def sequence_task(idx, mode):
     pl = Pipeline()
     prof = common.FuncProfile()
     comp1 = name.startswith('compress')
+    comp2 = name.startswith('compress_both')
 
     def declare(p, decl):
         return {k: p.int(k, b) for k, b in decl.items()}
 
-    def second(p, c2):
-        Markers.table = {}
+    def mark(src):
+        return re.sub(r'\b(K[12])\b', r'@\1@', src)
+
+    def second(p, c2, shared=None):
         labels2 = {}
         consts2 = SymConstants(c2)
-        out = pl.asm.assemble(src2, constants=consts2, labels=labels2)
+        if mode == 'no-dicts':
+            # the caller passes no dictionaries at all: symbols enter as literal numerals
+            out = pl.asm.assemble(mark(src2), compress=comp2)
+            return out, {}, {}
+        if shared is not None:
+            labels2, consts2 = shared
+        else:
+            Markers.table = {}
+        out = pl.asm.assemble(src2, constants=consts2, labels=labels2, compress=comp2)
+        if shared is not None:
+            # only what the second program defines is comparable
+            return out, None, None
         return out, labels2, dict(consts2)
 
     runs = {}
@@ -187,20 +254,28 @@ def sequence_task(idx, mode):
 
         def fn(p, which=which):
             c2 = declare(p, d2)
+            shared = None
+            Markers.table = dict(c2)
             if which == 'after':
                 c1 = declare(p, d1)
-                Markers.table = {}
+                Markers.table = {**c1, **c2}
+                if mode == 'shared-dicts':
+                    shared = ({}, SymConstants({**c1, **c2}))
                 try:
                     with prof:
                         if mode == 'first-dicts':
                             pl.asm.assemble(src1, constants=SymConstants(c1), labels={}, compress=comp1)
+                        elif mode == 'no-dicts':
+                            pl.asm.assemble(mark(src1), compress=comp1)
+                        elif mode == 'shared-dicts':
+                            pl.asm.assemble(src1, constants=shared[1], labels=shared[0], compress=comp1)
                         else:
                             pl.asm.assemble(src1, constants=SymConstants(c1), compress=comp1)
                 except Exception:
                     pass
             p.notes['c2'] = c2
             with prof:
-                return second(p, c2)
+                return second(p, c2, shared)
         for p, kind, val in x.run(fn):
             if kind == 'limit':
                 res.inconc('sequence %s: %s' % (name, val))
@@ -222,6 +297,8 @@ def sequence_task(idx, mode):
                 ob = z3.BoolVal(a['exc'] == b['exc'])
             else:
                 (oa, la, ca), (ob_, lb, cb) = a['val'], b['val']
+                if lb is None:          # shared dictionaries: compare the bytes only
+                    la = ca = lb = cb = {}
                 if set(la) != set(lb) or set(ca) != set(cb):
                     ob = z3.BoolVal(False)
                 else:
@@ -233,11 +310,11 @@ def sequence_task(idx, mode):
                 mdl = s.model()
                 vals = {k: mdl.eval(z3.BitVec(k, core._bits(-(1 << (bits - 1)), (1 << (bits - 1)) - 1)), model_completion=True).as_signed_long()
                         for k, bits in {**d1, **d2}.items()}
-                same = _concrete_sequence(pl.real, src1, {k: vals[k] for k in d1}, src2, {k: vals[k] for k in d2}, mode, comp1)
+                same = _concrete_sequence(pl.real, src1, {k: vals[k] for k in d1}, src2, {k: vals[k] for k in d2}, mode, comp1, comp2)
                 if same:
                     res.inconc('sequence %s: counterexample %r did not reproduce' % (name, vals))
                 else:
-                    path = common.write_replay('C16', 'sequence_%s_%s' % (name, mode), dict(kind='sequence', property='C16', first=src1, second=src2, values=vals, mode=mode,
+                    path = common.write_replay(prop, 'sequence_%s_%s' % (name, mode), dict(kind='sequence', property=prop, first=src1, second=src2, values=vals, mode=mode,
                                                                                               what='the second result depends on the first call'))
                     res['violations'].append(dict(harness='sequence', seq=name, mode=mode, kind='history-dependent', values=vals, replay=path))
                     res.oblig(False)
@@ -246,7 +323,7 @@ def sequence_task(idx, mode):
     # concrete replay of one witness pair for validation
     if runs['alone'] and runs['after']:
         vals = {k: 3 for k in {**d1, **d2}}
-        if _concrete_sequence(pl.real, src1, {k: 3 for k in d1}, src2, {k: 3 for k in d2}, mode, comp1):
+        if _concrete_sequence(pl.real, src1, {k: 3 for k in d1}, src2, {k: 3 for k in d2}, mode, comp1, comp2):
             res['validated'] += 1
     if n == 0:
         res['vacuity'].append('sequence %s: no jointly feasible pair' % name)
@@ -255,23 +332,36 @@ def sequence_task(idx, mode):
     return res
 
 
-def _concrete_sequence(real, src1, c1, src2, c2, mode, comp1):
-    def run2():
+def _concrete_sequence(real, src1, c1, src2, c2, mode, comp1, comp2=False):
+    def lit(src):
+        return re.sub(r'\b(K[12])\b', lambda m: str({**c1, **c2}[m.group(1)]), src)
+
+    def run2(shared=None):
         labels, consts = {}, dict(c2)
         try:
-            out = real.assemble(src2, constants=consts, labels=labels)
+            if mode == 'no-dicts':
+                return ('ok', bytes(real.assemble(lit(src2), compress=comp2)))
+            if shared is not None:
+                return ('ok', bytes(real.assemble(src2, constants=shared[1], labels=shared[0], compress=comp2)))
+            out = real.assemble(src2, constants=consts, labels=labels, compress=comp2)
             return ('ok', bytes(out), labels, consts)
         except Exception as e:
             return ('exc', type(e).__name__)
     alone = run2()
+    shared = ({}, {**c1, **c2}) if mode == 'shared-dicts' else None
     try:
         if mode == 'first-dicts':
             real.assemble(src1, constants=dict(c1), labels={}, compress=comp1)
+        elif mode == 'no-dicts':
+            real.assemble(lit(src1), compress=comp1)
+        elif mode == 'shared-dicts':
+            real.assemble(src1, constants=shared[1], labels=shared[0], compress=comp1)
         else:
             real.assemble(src1, constants=dict(c1), compress=comp1)
     except Exception:
         pass
-    return run2() == alone
+    after = run2(shared)
+    return after[:2] == alone[:2] if mode == 'shared-dicts' else after == alone
 
 
 def incdirs_task(second):
